@@ -221,6 +221,12 @@ impl Runner {
     }
 
     pub fn start(&mut self, id: BuildId, build: &Build) {
+        #[cfg(feature = "verif")]
+        if crate::verif::exec_active() {
+            crate::verif::exec_start(id, build, self.tids.claim());
+            self.running += 1;
+            return;
+        }
         let cmdline = build.cmdline.clone().unwrap();
         let depfile = build.depfile.clone().map(PathBuf::from);
         let rspfile = build.rspfile.clone();
@@ -263,6 +269,19 @@ impl Runner {
 
     /// Wait for a build to complete.  May block for a long time.
     pub fn wait(&mut self, mut output: impl FnMut(BuildId, Vec<u8>)) -> FinishedTask {
+        #[cfg(feature = "verif")]
+        if let Some((id, tid, lines, result)) = crate::verif::exec_finish(self.running) {
+            for line in lines {
+                let _ = self.tx.send(Message::Output((id, line)));
+            }
+            let now = Instant::now();
+            let _ = self.tx.send(Message::Done(FinishedTask {
+                tid,
+                buildid: id,
+                span: (now, now),
+                result,
+            }));
+        }
         loop {
             match self.rx.recv().unwrap() {
                 Message::Output((bid, line)) => output(bid, line),
